@@ -229,6 +229,46 @@ func RunCheck(opt *Options) (*CheckReport, error) {
 			return rep, nil
 		}
 	}
+	// contracts written with a short package name ("bufconfig.T.M") are re-keyed to the import path
+	for _, k := range sortedKeys(cs.Funcs) {
+		fc := cs.Funcs[k]
+		if _, ok := ld.byPath[fc.PkgPath]; ok || fc.PkgPath == "" {
+			continue
+		}
+		if p, ok := ld.byName[fc.PkgPath]; ok {
+			nk := p.Path() + strings.TrimPrefix(k, fc.PkgPath)
+			delete(cs.Funcs, k)
+			fc.Key, fc.PkgPath = nk, p.Path()
+			cs.Funcs[nk] = fc
+		}
+	}
+	for _, pi := range cs.PureIfaces {
+		p := ld.byPath[pi.Pkg]
+		if p == nil {
+			p = ld.byName[pi.Pkg]
+		}
+		if p == nil {
+			continue // package not part of this property's load
+		}
+		tn, ok := p.Scope().Lookup(pi.Name).(*types.TypeName)
+		if !ok {
+			return nil, fmt.Errorf("%s: trusted pure interface %s.%s: no such type", pi.File, pi.Pkg, pi.Name)
+		}
+		ms := types.NewMethodSet(tn.Type())
+		for i := 0; i < ms.Len(); i++ {
+			fn, ok := ms.At(i).Obj().(*types.Func)
+			if !ok || !fn.Exported() && fn.Pkg() != p {
+				continue
+			}
+			if fn.Type().(*types.Signature).Results().Len() == 0 {
+				continue
+			}
+			k := funcKey(fn)
+			if cs.Funcs[k] == nil {
+				cs.Funcs[k] = &FuncContract{Key: k, Trusted: true, Pure: true, PkgPath: fn.Pkg().Path(), Loops: map[int]*LoopSpec{}, Closures: map[int]*LoopSpec{}, File: pi.File}
+			}
+		}
+	}
 	var onlyRe *regexp.Regexp
 	if opt.Only != "" {
 		onlyRe = regexp.MustCompile(opt.Only)
